@@ -1438,7 +1438,8 @@ class ClientRequest(ClientRequestBase):
         if self.compress:
             writer.enable_compression(self.compress)
 
-        if self.chunked is not None:
+        if self.chunked:
+            # (chunked=False means what it says)
             writer.enable_chunking()
         return writer
 
